@@ -33,6 +33,9 @@ func (e *Enc) loopHeader(b *ssa.BasicBlock, li *loopInfo, st *State) {
 			e.vals[phi] = entryPhi[phi]
 		}
 		ctx := e.ctxAt(b, 0, st)
+		if inv.Kind == "skip" {
+			continue
+		}
 		f := e.evalInv(inv, ctx)
 		e.obligeAt(e.pc[b], "loop", fmt.Sprintf("loop%d.%s%d.init", li.Ord, inv.Kind, k+1), f, b.Instrs[0].Pos(), "invariant holds on loop entry: "+inv.C.Src)
 	}
@@ -95,6 +98,9 @@ type loopInv struct {
 }
 
 func (e *Enc) evalInv(inv loopInv, ctx *specCtx) string {
+	if inv.Kind == "skip" {
+		return "true"
+	}
 	if inv.Raw != nil {
 		return inv.Raw()
 	}
@@ -145,6 +151,31 @@ func (e *Enc) loopInvariants(li *loopInfo, phis []*ssa.Phi) []loopInv {
 				continue
 			}
 		}
+		if phi.Comment == "rangeint.iter" {
+			// for i := range n (rotated loop): entered only if 0 < n, repeated while i+1 < n
+			var bound ssa.Value
+			for i, ed := range phi.Edges {
+				if !phi.Block().Dominates(phi.Block().Preds[i]) {
+					continue
+				}
+				if add, ok := ed.(*ssa.BinOp); ok && add.Op == token.ADD && add.X == ssa.Value(phi) {
+					for _, ins := range add.Block().Instrs {
+						if bo, ok := ins.(*ssa.BinOp); ok && bo.Op == token.LSS && bo.X == ssa.Value(add) {
+							bound = bo.Y
+						}
+					}
+				}
+			}
+			if bound != nil {
+				ph, bd := phi, bound
+				out = append(out, loopInv{Kind: "auto", C: Clause{Src: "0 <= rangeint.iter && rangeint.iter < bound"}, Raw: func() string {
+					p := e.vals[ph].term()
+					n := e.val(bd).term()
+					return "(and (<= 0 " + p + ") (< " + p + " " + n + "))"
+				}})
+				continue
+			}
+		}
 		var lo *int64
 		okAll := true
 		for i, ed := range phi.Edges {
@@ -173,11 +204,15 @@ func (e *Enc) loopInvariants(li *loopInfo, phis []*ssa.Phi) []loopInv {
 			}
 		}
 		if okAll && lo != nil {
-			src := fmt.Sprintf("%s >= %d", phi.Comment, *lo)
-			ex, err := ParseSpec(src)
-			if err == nil {
-				out = append(out, loopInv{Kind: "auto", C: Clause{Src: src, E: autoPhiRef{ex, phi}}})
-			}
+			ph, lov := phi, *lo
+			out = append(out, loopInv{Kind: "auto", C: Clause{Src: fmt.Sprintf("%s >= %d", phi.Comment, lov)}, Raw: func() string {
+				return "(>= " + e.vals[ph].term() + " " + sInt(lov) + ")"
+			}})
+		}
+	}
+	for i := range out {
+		if out[i].Kind == "auto" && e.disabledAuto[fmt.Sprintf("loop%d.auto%d", li.Ord, i+1)] {
+			out[i].Kind = "skip"
 		}
 	}
 	return out
@@ -235,6 +270,9 @@ func (e *Enc) checkBackEdges(b *ssa.BasicBlock, st *State) {
 		}
 		ctx := e.ctxAt(s, 0, st)
 		for k, inv := range invs {
+			if inv.Kind == "skip" {
+				continue
+			}
 			f := e.evalInv(inv, ctx)
 			e.obligeAt(cond, "loop", fmt.Sprintf("loop%d.%s%d.keep@b%d", li.Ord, inv.Kind, k+1, b.Index), f, b.Instrs[len(b.Instrs)-1].Pos(), "invariant preserved by loop body: "+inv.C.Src)
 		}
@@ -512,28 +550,180 @@ func typeReach(t types.Type, ws *writeSet, seen map[types.Type]bool) {
 
 func (e *Enc) modifiesRootsStatic(ctr *Contract, c *ssa.CallCommon, fn *ssa.Function) *writeSet {
 	ws := newWriteSet()
-	// conservative: type reach of all args, but never "all"
-	var ts []types.Type
+	// parameter types of the callee by name
+	env := map[string]types.Type{}
+	sig := c.Signature()
+	var names []string
+	var ptypes []types.Type
 	if c.IsInvoke() {
-		// receiver is an interface: the designators talk about ghost fields only
+		names, ptypes = append(names, "this"), append(ptypes, c.Value.Type())
 	}
-	for _, a := range c.Args {
-		ts = append(ts, a.Type())
+	if fn != nil && len(fn.Params) > 0 {
+		for _, p := range fn.Params {
+			names, ptypes = append(names, p.Name()), append(ptypes, p.Type())
+		}
+	} else {
+		if sig.Recv() != nil {
+			names, ptypes = append(names, sig.Recv().Name()), append(ptypes, sig.Recv().Type())
+		}
+		for i := 0; i < sig.Params().Len(); i++ {
+			names, ptypes = append(names, sig.Params().At(i).Name()), append(ptypes, sig.Params().At(i).Type())
+		}
 	}
-	seen := map[types.Type]bool{}
-	tmp := newWriteSet()
-	for _, t := range ts {
-		typeReach(t, tmp, seen)
+	for i, n := range names {
+		env[n] = ptypes[i]
+		env[fmt.Sprintf("arg%d", i)] = ptypes[i]
 	}
-	for r := range tmp.roots {
-		ws.roots[r] = true
+	if len(ptypes) > 0 {
+		env["this"] = ptypes[0]
 	}
 	for _, m := range ctr.Modifies {
-		if id, ok := leadingIdent(m.E); ok && strings.HasPrefix(id, "ghost_") {
-			ws.ghost["g:"+id] = true
+		if !designatorRoots(m.E, env, ws) {
+			// cannot type the designator statically: fall back to type reachability
+			seen := map[types.Type]bool{}
+			for _, t := range ptypes {
+				typeReach(t, ws, seen)
+			}
 		}
 	}
 	return ws
+}
+
+// specStaticType types a designator sub-expression from parameter types.
+func specStaticType(x SExpr, env map[string]types.Type) types.Type {
+	switch x := x.(type) {
+	case SIdent:
+		return env[x.Name]
+	case SSel:
+		if strings.HasPrefix(x.Name, "ghost_") {
+			return nil
+		}
+		t := specStaticType(x.X, env)
+		if t == nil {
+			return nil
+		}
+		if p, ok := t.Underlying().(*types.Pointer); ok {
+			t = p.Elem()
+		}
+		st, ok := t.Underlying().(*types.Struct)
+		if !ok {
+			return nil
+		}
+		_, ft := findField(st, x.Name)
+		return ft
+	case SIndex:
+		t := specStaticType(x.X, env)
+		if t == nil {
+			return nil
+		}
+		switch u := t.Underlying().(type) {
+		case *types.Slice:
+			return u.Elem()
+		case *types.Array:
+			return u.Elem()
+		case *types.Map:
+			return u.Elem()
+		}
+	case SUnary:
+		if x.Op == "*" {
+			if t := specStaticType(x.X, env); t != nil {
+				if p, ok := t.Underlying().(*types.Pointer); ok {
+					return p.Elem()
+				}
+			}
+		}
+	}
+	return nil
+}
+
+// designatorRoots adds the heap roots a modifies designator can touch. Returns
+// false when the designator cannot be typed statically.
+func designatorRoots(x SExpr, env map[string]types.Type, ws *writeSet) bool {
+	addValueRoots := func(container types.Type, T types.Type) {
+		// scalar leaves live in the container root, embedded arrays in element rows
+		for _, lf := range typeLeaves(T) {
+			if lf.Dims == 0 {
+				ws.roots[typeKey(container)] = true
+				continue
+			}
+			k := 0
+			for k < len(lf.Path) && lf.Path[k] >= 0 {
+				k++
+			}
+			if et := typeAtPath(T, lf.Path[:k+1]); et != nil {
+				ws.roots[typeKey(et)] = true
+			}
+		}
+	}
+	switch x := x.(type) {
+	case SSel:
+		if strings.HasPrefix(x.Name, "ghost_") {
+			ws.roots[typeKey(types.Typ[types.UnsafePointer])] = true
+			return true
+		}
+		bt := specStaticType(x.X, env)
+		if bt == nil {
+			return false
+		}
+		p, ok := bt.Underlying().(*types.Pointer)
+		if !ok {
+			return false
+		}
+		st, ok := p.Elem().Underlying().(*types.Struct)
+		if !ok {
+			return false
+		}
+		_, ft := findField(st, x.Name)
+		if ft == nil {
+			return false
+		}
+		if m, ok := ft.Underlying().(*types.Map); ok {
+			ws.roots[typeKey(m)] = true
+			return true
+		}
+		// the struct may itself be embedded in a larger object; the root is what the
+		// base pointer's static type says (callers pass plain or interior pointers of
+		// the same pointee type; interior actuals are resolved at application time)
+		addValueRoots(ptrRoot(p.Elem()), ft)
+		return true
+	case SUnary:
+		if x.Op == "*" {
+			t := specStaticType(x.X, env)
+			if t == nil {
+				return false
+			}
+			p, ok := t.Underlying().(*types.Pointer)
+			if !ok {
+				return false
+			}
+			addValueRoots(ptrRoot(p.Elem()), p.Elem())
+			return true
+		}
+	case SIndex:
+		t := specStaticType(x.X, env)
+		if t == nil {
+			return false
+		}
+		switch u := t.Underlying().(type) {
+		case *types.Slice:
+			addValueRoots(u.Elem(), u.Elem())
+			return true
+		case *types.Map:
+			ws.roots[typeKey(u)] = true
+			return true
+		}
+	case SIdent:
+		if strings.HasPrefix(x.Name, "ghost_") {
+			ws.ghost["g:"+x.Name] = true
+			return true
+		}
+	case SCall:
+		if x.Fn == "boxed" {
+			ws.all = true
+			return true
+		}
+	}
+	return false
 }
 
 func leadingIdent(x SExpr) (string, bool) {
@@ -566,6 +756,7 @@ func (e *Enc) havocAll(st *State, why string) {
 	st.heap = map[string]string{}
 	st.rootEpoch = map[string]int{}
 	st.epoch = e.newEpoch()
+	e.bumpAllVer(st)
 	e.preserveLocals(old, st, nil)
 }
 
@@ -591,6 +782,7 @@ func (e *Enc) havocRoots(st *State, ws *writeSet, preserve bool) {
 	ep := e.newEpoch()
 	for _, r := range rs {
 		st.rootEpoch[r] = ep
+		e.bumpVer(st, r)
 	}
 	if preserve {
 		e.preserveLocals(old, st, ws.roots)
@@ -660,8 +852,18 @@ func (e *Enc) valueEscapes(v ssa.Value, seen map[ssa.Value]bool) bool {
 			// load: the loaded value is a copy
 		case *ssa.Store:
 			if r.Val == v {
+				// stored into an object of this function that does not escape itself
+				base := addrBase(r.Addr)
+				switch base.(type) {
+				case *ssa.Alloc, *ssa.MakeSlice:
+					if base != v && !e.valueEscapes(base, seen) {
+						continue
+					}
+				}
 				return true
 			}
+		case *ssa.Return:
+			// nothing of this function runs after the return
 		case *ssa.FieldAddr, *ssa.IndexAddr, *ssa.Slice, *ssa.Phi, *ssa.ChangeType, *ssa.Convert:
 			if e.valueEscapes(r.(ssa.Value), seen) {
 				return true
@@ -696,6 +898,22 @@ func (e *Enc) valueEscapes(v ssa.Value, seen map[ssa.Value]bool) bool {
 		}
 	}
 	return false
+}
+
+// addrBase walks an address back to the value it is derived from.
+func addrBase(a ssa.Value) ssa.Value {
+	for {
+		switch x := a.(type) {
+		case *ssa.FieldAddr:
+			a = x.X
+		case *ssa.IndexAddr:
+			a = x.X
+		case *ssa.Slice:
+			a = x.X
+		default:
+			return a
+		}
+	}
 }
 
 // ---------- maps ----------
